@@ -675,6 +675,27 @@ static void opProc(const HxLine& l)
   }
 }
 
+// ---- descriptor leaks --------------------------------------------------------------------------------
+static int countFds()
+{
+  DIR* d = opendir("/proc/self/fd");
+  if(!d)
+    return -1;
+  int n = 0;
+  while(readdir(d))
+    ++n;
+  closedir(d);
+  return n;
+}
+static int fdBaseline = 0;
+
+// fds: number of descriptors open beyond those at start-up (the Process object must be idle)
+static void opFds()
+{
+  printf("fds | open=%d", countFds() - fdBaseline);
+  hxEndLine();
+}
+
 // ---- environment of the own process -----------------------------------------------------------------
 static void clearTestEnv()
 {
@@ -791,28 +812,23 @@ static void opExecFail(const HxLine& l)
   hxEndLine();
 }
 
-// ---- descriptor leaks --------------------------------------------------------------------------------
-static int countFds()
+// killtest <mask>: a child that blocks reading its redirected stdin is inspected and killed.
+// childextra = descriptors the child holds beyond the ones this process had at start-up (0, 1, 2 included):
+// the child must keep none of the pipe ends except as its standard descriptors.
+static int countFdsOf(uint32 pid)
 {
-  DIR* d = opendir("/proc/self/fd");
+  char path[64];
+  snprintf(path, sizeof(path), "/proc/%u/fd", (unsigned)pid);
+  DIR* d = opendir(path);
   if(!d)
-    return -1;
+    return -1000;
   int n = 0;
   while(readdir(d))
     ++n;
   closedir(d);
   return n;
 }
-static int fdBaseline = 0;
 
-// fds: number of descriptors open beyond those at start-up (the Process object must be idle)
-static void opFds()
-{
-  printf("fds | open=%d", countFds() - fdBaseline);
-  hxEndLine();
-}
-
-// killtest <mask>: a child that blocks reading its redirected stdin is killed
 static void opKillTest(const HxLine& l)
 {
   uint mask = ((uint)hxNum(l, 1) & 3) | 4;
@@ -830,10 +846,14 @@ static void opKillTest(const HxLine& l)
   }
   bool ok = p.open(String(childPath, childPathLen), 6, argv, mask);
   bool running = p.isRunning();
+  // own descriptors now: start-up set + the pipe ends held by p (+ the saved stdout while diverted)
+  int mine = countFds() - fdBaseline - (diverted ? 1 : 0);
+  int childExtra = ok ? countFdsOf(p.getProcessId()) - (fdBaseline - 1) - (diverted ? 1 : 0) : -1; // the saved stdout is inherited too
   bool killed = ok && p.kill();
   if(diverted)
     restoreStdout(cap);
-  printf("kill ok=%d | running=%d killed=%d after=%u", ok ? 1 : 0, running ? 1 : 0, killed ? 1 : 0, pipesOf(p) | (p.pid ? 8u : 0u));
+  printf("kill ok=%d | running=%d parentpipes=%d childextra=%d killed=%d after=%u", ok ? 1 : 0, running ? 1 : 0, mine, childExtra,
+    killed ? 1 : 0, pipesOf(p) | (p.pid ? 8u : 0u));
   hxEndLine();
 }
 
